@@ -3,18 +3,20 @@ Tie: translator (Gen/GenScalars.v) + model Model/Ecdf.v; correspondence K5 and K
 corresponding input for LinearScaling, QuantileMapping (parametric / non-parametric), CDFt (all 3 x 9 method pairs)
 and ISIMIP step 6 (bounded and unbounded variables), and the randomisations (CDFt SSR, ISIMIP step 4) never reorder."""
 import warnings, logging
+from fractions import Fraction
 import numpy as np
 from . import common as C
 from . import debiasers, realruns as R
 
 GEN_FILES = ["GenScalars", "GenUtils"]
-TRUSTED = ["C09: ISIMIP step 6 / step 4 and the CDFt SSR randomisation are searched on the implementation (through the public step API), not proved",
+TRUSTED = ["C09: ISIMIP step 4 is proved on the hand model Model/IsimipStep4.v (tied by correspondence K16, uniform draws recorded); ISIMIP step 5/6 end to end and the CDFt SSR randomisation are searched on the implementation (through the public step API), not proved",
            "C09: SciPy distributions have non-decreasing cdf and ppf (assumption about SciPy)"]
 ECDF = ["step_function", "linear_interpolation", "kernel_density"]
 IECDF = ["inverted_cdf", "averaged_inverted_cdf", "closest_observation", "interpolated_inverted_cdf", "hazen", "weibull", "linear", "median_unbiased", "normal_unbiased"]
 
 def correspondence(res, tier, seed):
     debiasers.k5(res, tier, seed, tag="k5c09")
+    k16(res, tier, seed, tag="k16c09")
     res.rule = ("K5 as for C03; search: series of 40-400 values with ties, zeros and values outside the calibration range; all ecdf x iecdf "
                 "pairs for CDFt; ISIMIP step 6 for all ten variable settings; distinct/non-trivial = distinct (method, configuration) classes")
 
@@ -115,6 +117,54 @@ def search(res, tier, seed, deep=False):
                 res.case(("isimip-step6", var))
                 if not nondecreasing_in_input(c, out, 1e-9 * (1 + np.max(np.abs(out)))):
                     report("not-monotone:ISIMIP:" + var, dict(variable=var, seed=seed, round=rnd), None, "ISIMIP step 6 is not rank preserving")
+
+def k16(res, tier, seed, tag="k16"):
+    """K16: hand model Model/IsimipStep4.v vs ISIMIP._step4_randomize_values_between_{lower,upper}_threshold_and_bound with the
+    uniform draws recorded (np.random.uniform patched to record them); small series (NumPy's argsort is an insertion sort,
+    hence stable, below 17 elements: ties among the randomised values are then broken as in the model)."""
+    from ibicus.debias import ISIMIP
+    from .c17 import Rec
+    r = C.rng_for(seed, tag)
+    n = 40 if tier == "quick" else 400
+    cc = C.CoqCases(tag, ["QL", "NP", "Ecdf", "IsimipStep4", "CorrBase"], per_file=100)
+    meta = []
+    with warnings.catch_warnings():
+        warnings.simplefilter("ignore")
+        for i in range(n):
+            var = r.choice(["hurs", "pr", "tasskew", "prsnratio"])
+            d = ISIMIP.from_variable(var)
+            lb, lt = Fraction(d.lower_bound).limit_denominator(10 ** 9), Fraction(d.lower_threshold)
+            up = np.isfinite(d.upper_bound)
+            ub, ut = (Fraction(d.upper_bound), Fraction(d.upper_threshold)) if up else (None, None)
+            k = r.randint(2, 12)
+            hi = Fraction(d.upper_bound) if up else 40 * lt + 1
+            vals = []
+            for _ in range(k):
+                c = r.random()
+                if c < 0.3: vals.append(lb)
+                elif c < 0.45: vals.append(lb + (lt - lb) * Fraction(r.randint(1, 15), 16))
+                elif c < 0.6 and up: vals.append(ub if r.random() < 0.6 else ut + (ub - ut) * Fraction(r.randint(1, 15), 16))
+                else: vals.append(lt + (hi - lt) * Fraction(r.randint(1, 63), 64))
+            which = "upper" if (up and i % 2) else "lower"
+            v = np.array([float(x) for x in vals])
+            with Rec() as rec:
+                np.random.seed(i)
+                out = (d._step4_randomize_values_between_upper_threshold_and_bound if which == "upper" else d._step4_randomize_values_between_lower_threshold_and_bound)(v.copy())
+            us = [Fraction(float(u)) for u in (rec.us[0] if rec.us else [])]
+            fv = [Fraction(float(x)) for x in v]
+            if which == "lower":
+                e = "close_list (step4_lower %s %s %s %s) %s (1#1000000000000)" % (C.q(Fraction(float(d.lower_bound))), C.q(Fraction(float(d.lower_threshold))), C.ql(us), C.ql(fv), C.ql(out))
+            else:
+                e = "close_list (step4_upper %s %s %s %s) %s (1#1000000000000)" % (C.q(Fraction(float(d.upper_threshold))), C.q(Fraction(float(d.upper_bound))), C.ql(us), C.ql(fv), C.ql(out))
+            cc.add(e)
+            m = dict(func="ISIMIP._step4_randomize_values (%s)" % which, variable=var, values=[str(x) for x in vals], draws=len(us))
+            meta.append(m); res.case(("step4", which, var, len(us) > 1), sample=m if len(res.samples) < 5 else None)
+    fails, errors = cc.run()
+    res.components["K16 Model/IsimipStep4.v (hand model) vs ISIMIP step 4 randomisation"] = dict(cases=len(cc.cases), disagreements=len(fails), errors=len(errors))
+    for e in errors[:3]:
+        res.broke("correspondence-error", "K16", e)
+    for i in fails[:5]:
+        res.broke("correspondence", "K16 " + meta[i]["func"], meta[i])
 
 def replay(w):
     return True, "re-run ./check C09 (inputs are regenerated from the recorded seed)"
